@@ -104,8 +104,8 @@ let is_stable cands (ins : M.Fol.pred list) (prog : M.Asp.program) (t : M.Eval.f
    sem_c02_behaviour: input ((external ..) R), R the implementation's decompose() result.
    The statement of C02_modulo_private_uniqueness as an executable test, on accepted
    program-vs-program tasks without proof outline and placeholders whose programs are tight and
-   arithmetic-free (evaluation over the window of the task's own constants is exact) and outside
-   the known class F9: for EVERY interpretation M over a few ground atoms of the input, output and
+   arithmetic-free (evaluation over the window of the task's own constants is exact), outside
+   the known class F9 and under validated_no_clash (no symbol equal to a 0-ary predicate): for EVERY interpretation M over a few ground atoms of the input, output and
    private predicates (the program's private predicates under their renamed names) that satisfies
    the user-guide assumptions and the completed definitions of the private predicates,
       some emitted forward problem is refuted by M
@@ -131,7 +131,13 @@ let sem_c02_behaviour (e : Sexp.t) : Sexp.t =
        let right_private = List.map renamed pp in
        let privates = sp @ right_private in
        let clash = List.exists (fun p -> let r = renamed p in List.mem r sp || List.mem r pp || List.mem r public) both in
-       if t.et_proof_outline <> [] || M.External.ug_placeholders ug <> [] || clash
+       (* the side condition validated_no_clash of the theorem: no symbol equal to a 0-ary predicate
+          (otherwise rename_conflicting_symbols renames the symbol to s__s in the problems) *)
+       let syms = M.Asp.program_fconsts left @ M.Asp.program_fconsts right
+                  @ List.concat_map (fun (a : aformula_annot) -> M.Fol.symbols a.an_formula) (M.External.ug_formulas ug) in
+       let symbol_clash = List.exists (fun (q : pred) -> Conv.int_of_nat q.parity = 0 && List.mem q.psym syms)
+           (public @ privates @ M.Asp.program_preds left @ M.Asp.program_preds right) in
+       if t.et_proof_outline <> [] || M.External.ug_placeholders ug <> [] || clash || symbol_clash
           || M.EvalAspTasks.program_has_arith left || M.EvalAspTasks.program_has_arith right
           || not (M.Tightness.is_tight left) || not (M.Tightness.is_tight right)
           || pbs = [] (* the private definitions are read off the problems' stable premises *) then ok 0
